@@ -281,8 +281,11 @@ def main():
             "CH-real verdicts are about exact real arithmetic on finite inputs; IEEE rounding is covered only by CH-ieee obligations and KSMT queries",
         ],
     }
-    os.makedirs(os.path.join(VERIF, "evidence"), exist_ok=True)
-    json.dump(ev, open(os.path.join(VERIF, "evidence", pid + ".json"), "w"), indent=1)
+    # evidence/ describes runs against /repo itself; a run against another tree (PRAATIO_ROOT:
+    # seeded changes, the pinned commit) and a partial run (--only) must not overwrite it
+    ev_dir = os.path.join(VERIF, "evidence") if (os.path.realpath(ROOT) == "/repo" and not only) else os.path.join(VERIF, "out", "evidence_other")
+    os.makedirs(ev_dir, exist_ok=True)
+    json.dump(ev, open(os.path.join(ev_dir, pid + ".json"), "w"), indent=1)
     print("[%s] tier=%s obligations=%d discharged=%d unknown=%d known=%d violations=%d canaries=%d/%d wall=%.0fs" % (pid, tier, len(obs), discharged, len(unknown), len(known_hit), len(violations), killed, len(canary_list), time.time() - t_start))
     if violations:
         sys.exit(1)
